@@ -7,7 +7,7 @@
 From Coq Require Import List ZArith.
 From Coq.Strings Require Import Byte.
 From DRX Require Import Py.PyBytes Model.Riff Model.Index Model.Snd Model.Clut Model.Vwsc Model.Bitd
-  Proofs.FuelFacts Proofs.FuelFacts2 Proofs.FuelFacts3.
+  Proofs.FuelFacts Proofs.FuelFacts2 Proofs.FuelFacts3 Proofs.FuelFacts4 Model.Text Py.Layout.
 Import ListNotations.
 Open Scope Z_scope.
 
@@ -64,6 +64,15 @@ Proof. exact compressed24_terminates. Qed.
 Example C10_bitmap_dangling_control :      (* the input of seed C10_i: a literal of 4, then a run control byte with nothing after it *)
   decode_compressed8 [x03; x01; x02; x03; x04; xfe] 4 4 0 0 4 = Ok ([x00; x00; x00; x00; x00; x00; x00; x00; x00; x00; x00; x00; x01; x02; x03; x04]).
 Proof. vm_compute. reflexivity. Qed.
+(* the style-run loop of a styled-text chunk reads one 20-byte record per iteration inside the data.  PARTIAL: proved for
+   chunks whose run table starts at a non-negative position (data offset + text length >= 0); for a negative position
+   Python's slices count from the end of the data - that case is covered by the measurement side only *)
+Theorem C10_styled_text_partial : forall d fm,
+  (forall a b, rd_s 4 Big d 0 = Ok a -> rd_s 4 Big d 4 = Ok b -> 0 <= a + b) -> parse_stxt_data d fm <> OutOfFuel.
+Proof. exact stxt_terminates_partial. Qed.
+Theorem C10_layout_read_inside : forall bo l d pos v, existsb real_field l = true -> 0 <= pos ->
+  read_layout bo l d pos = Ok v -> pos < zlen d.
+Proof. exact read_layout_ok_inside. Qed.
 
 Print Assumptions C10_container_walk.
 Print Assumptions C10_locator.
@@ -82,3 +91,5 @@ Print Assumptions C10_bitmap8.
 Print Assumptions C10_bitmap1.
 Print Assumptions C10_bitmap16.
 Print Assumptions C10_bitmap24.
+Print Assumptions C10_styled_text_partial.
+Print Assumptions C10_layout_read_inside.
